@@ -187,9 +187,12 @@ def one_round(rep: Report, rng: Rng, spec: Spec, cfg0: dict, n: int, max_batches
 from ..translators import plumbing as plumbing_tr  # noqa: E402
 
 TRUSTED_EXTRA = ["harness/translators/plumbing.py (symbolic execution of the AST of update / merge_state / compute of every class; its "
-                 "operator table: `+`/`+=` = add, torch.max/maximum/max of two = max, torch.min/minimum/min of two = min, "
-                 ".to/.clone/.detach = identity, list.append) producing lean/TE/Gen/Plumbing.lean; cross-checked against the real "
-                 "merge_state / update on every run (plumbing:*-crosscheck counters)"]
+                 "operator table: `+`/`+=`/`.add_()` = add, torch.max/maximum/max of two = max, torch.min/minimum/min of two = min, "
+                 ".to/.clone/.detach = identity, list.append, torch.zeros_like(x) reads only the shape of x; recognised control "
+                 "flow: the scalar->vector adoption test `self.G.ndim == 0 and X.ndim == 1`, `for i in range(self.<n>)` row loops, "
+                 "`self.d = self.a - self.b`, a constructor flag as row mode, one joint combine method (Chan/Welford template), "
+                 "per-query top-k lists (get_topk + gather template)) producing lean/TE/Gen/Plumbing.lean; cross-checked against "
+                 "the real merge_state / update on every run (plumbing:*-crosscheck counters)"]
 _PLUMB_ROWS = []
 
 
